@@ -554,8 +554,20 @@ impl EdgeDeletionEntry {
             cdate=?
         ";
         let mut stmt = conn.prepare_cached(query)?;
+        //the log is keyed without the source entity: an entry can replace one recorded under another entity
+        let mut replaced_stmt = conn.prepare_cached(
+            "SELECT src_entity FROM _edge_deletion_log WHERE room_id=? AND deletion_date=? AND src=? AND label=? AND dest=?",
+        )?;
         for e in edges {
             stmt.execute((&e.src, &e.src_entity, &e.label, &e.dest, &e.cdate))?;
+            {
+                let mut replaced =
+                    replaced_stmt.query((&e.room_id, &e.deletion_date, &e.src, &e.label, &e.dest))?;
+                while let Some(row) = replaced.next()? {
+                    let entity: String = row.get(0)?;
+                    daily_log.set_need_update(e.room_id, &entity, e.deletion_date);
+                }
+            }
             daily_log.set_need_update(e.room_id, &e.src_entity, e.deletion_date);
             e.write(conn)?;
         }
